@@ -264,8 +264,6 @@ pub fn run_property(prop: &str, tier: &str) -> Option<Outcome> {
             pop_table(prop, &[Kind::Std], &[Method::Ovl, Method::OvlIt], tier, &mut acc, &mut bounds);
             small_table(prop, &[Kind::Std], &[Method::Ovl, Method::OvlIt], tier, &mut acc, &mut bounds);
             deep_small_scope(prop, &[Kind::Std], tier, &mut acc, &mut bounds);
-            deep_small_scope(prop, &[Kind::Std], tier, &mut acc, &mut bounds);
-            deep_small_scope(prop, &[Kind::Std], tier, &mut acc, &mut bounds);
             crate::scale::scale_cases(prop, &[Kind::Std], &[Method::Ovl, Method::OvlIt], tier, &mut acc, &mut bounds);
             ("model_checking", "E2: every (pattern sequence, embedding, haystack) of the listed scopes; non-trivial = the oracle lists two matches that overlap or share an end".into(), vec![])
         }
